@@ -129,6 +129,39 @@ def check_iter(fd):
             del mid.tracks[0][-1]
         except Exception as exc:  # noqa: BLE001
             out.append(fail('raises', f'length after edit: {exc!r}', exc=exc_sig(exc)))
+    # ... and an edit that keeps every track object and every track length: a tempo value, a delta time
+    if not out:
+        try:
+            fd3 = dict(fd, tracks=[[dict(d) for d in t] for t in fd['tracks']])
+            edited = None
+            mid.length, list(mid)           # observed in its present state, then edited
+            for ti, t in enumerate(fd3['tracks']):
+                for mi, d in enumerate(t):
+                    if d['type'] == 'set_tempo':
+                        d['tempo'] = 777777 if d['tempo'] != 777777 else 333333
+                        mid.tracks[ti][mi].tempo = d['tempo']
+                        edited = 'a set_tempo value'
+                        break
+                if edited:
+                    break
+            if edited is None:
+                for ti, t in enumerate(fd3['tracks']):
+                    if t:
+                        t[0]['time'] += 240
+                        mid.tracks[ti][0].time += 240
+                        edited = 'a delta time'
+                        break
+            if edited:
+                s3 = exact_schedule(fd3)
+                times3 = [m.time for m in mid]
+                if len(times3) != len(s3) or any(not close(a, ds, 1e-12) for a, (d, ds, c) in zip(times3, s3)):
+                    out.append(fail('iteration-stale', f'iteration after changing {edited} in place still gives '
+                                                       f'{times3[:8]}, exact {[float(ds) for d, ds, c in s3][:8]}'))
+                if not close(mid.length, s3[-1][2] if s3 else 0, 1e-9):
+                    out.append(fail('length-stale', f'length after changing {edited} in place: {mid.length!r}, exact '
+                                                    f'{float(s3[-1][2]) if s3 else 0.0!r}'))
+        except Exception as exc:  # noqa: BLE001
+            out.append(fail('raises', f'after an in-place edit: {exc!r}', exc=exc_sig(exc)))
     total = sched[-1][2] if sched else Fraction(0)
     if not close(length, total, 1e-9):
         out.append(fail('length', f'length {length!r}, exact {float(total)!r}'))
